@@ -369,6 +369,12 @@ func (c *Ctx) checkFrame(st *State, ct *FuncContract, env *SpecEnv) {
 			exp = store(exp, l, sel(cur, l))
 		}
 		if strings.HasPrefix(k, "F:") {
+			if fn := k[strings.LastIndex(k, ".")+1:]; !specWords[fn] {
+				// no contract, spec function or axiom anywhere names this field: nothing that is proved can depend
+				// on it, so a write to it (a new counter, a cache of a computed value) is not a frame violation
+				c.note("field " + k + " is written outside the modifies clause but no specification mentions it: ignored by the frame check")
+				continue
+			}
 			c.nfr++
 			q := fmt.Sprintf("r!q%d", c.nfr)
 			goal := fmt.Sprintf("(forall ((%s Int)) (=> (and (> %s 0) (< %s alloc!0)) (= (select %s %s) (select %s %s))))", q, q, q, cur, q, exp, q)
